@@ -72,7 +72,13 @@ impl Canon {
 
     /// drain the hook log and print the lines of process `pid`
     pub fn flush(&mut self, out: &mut impl Write, cid: &str, pid: &str, mid: &str) {
-        for l in acts::verif::take_log() {
+        let lines = acts::verif::take_log();
+        self.flush_lines(out, cid, pid, mid, &lines);
+    }
+
+    /// print the lines of process `pid` out of a drained hook log
+    pub fn flush_lines(&mut self, out: &mut impl Write, cid: &str, pid: &str, mid: &str, lines: &[String]) {
+        for l in lines {
             let p: Vec<&str> = l.split(' ').collect();
             if p.len() < 2 || p[1] != pid {
                 continue;
